@@ -245,7 +245,7 @@ macro_rules! backend_impl {
                 if ld == 0 || ld > 53 {
                     return None;
                 }
-                let lb = ct.log_budget().min(12).min(127 - ld.min(127));
+                let lb = ct.log_budget().min(30).min(120 - ld.min(120));
                 let meta = CKKSMeta { log_delta: ld, log_budget: lb };
                 let mut z = CKKSPlaintextVecZnx::alloc(Degree(ctx.n as u32), ct.base2k(), meta);
                 let r = std::panic::catch_unwind(std::panic::AssertUnwindSafe(|| {
@@ -292,7 +292,9 @@ macro_rules! backend_impl {
                         let k = nat(f[2]);
                         let pm = meta(f[3], f[4]);
                         let pb = nat(f[5]);
-                        let v = gen_slots(step, m, mag);
+                        // keep the slot values inside what a plaintext of this precision can hold
+                        let cap_bits = (pm.min_k(Base2K(pb.max(1) as u32)).as_usize() as i64 - pm.log_delta as i64 - 2).clamp(-8, 40);
+                        let v = gen_slots(step, m, mag.min((cap_bits as f64).exp2()));
                         let z = pt_znx(ctx, pm, pb, &v).map_err(|e| err_string(&e))?;
                         let lay = EncryptionLayout::new_from_default_sigma(GLWELayout {
                             n: Degree(ctx.n as u32),
@@ -849,6 +851,38 @@ macro_rules! backend_impl {
                 unsafe { Ok((&mut *p.add(d), &*p.add(a), &*p.add(b))) }
             }
 
+            /// precision floor (bits after the binary point that can be trusted) of the value in the
+            /// destination after a successful op: min over everything that flowed into it
+            fn prec_after(f: &[&str], vp: &mut Vec<i64>) {
+                let name = f[0];
+                let g = |i: usize| -> i64 { f.get(i).and_then(|x| x.parse::<i64>().ok()).unwrap_or(0) };
+                let at = |vp: &Vec<i64>, i: i64| -> i64 { vp.get(i as usize).copied().unwrap_or(0) };
+                let d = g(1) as usize;
+                if d >= vp.len() {
+                    return;
+                }
+                let v = match name {
+                    "enc" => g(3),
+                    "add" | "sub" | "mul" => at(vp, g(2)).min(at(vp, g(3))),
+                    "mul_add_ct" | "mul_sub_ct" => at(vp, g(2)).min(at(vp, g(3))).min(vp[d]),
+                    "add_assign" | "sub_assign" | "mul_assign" => vp[d].min(at(vp, g(2))),
+                    "add_pt_znx" | "sub_pt_znx" | "mul_pt_znx" | "add_pt_rnx" | "sub_pt_rnx" | "mul_pt_rnx" | "add_cst_rnx"
+                    | "sub_cst_rnx" | "mul_cst_rnx" => at(vp, g(2)).min(g(3)),
+                    "mul_add_pt_znx" | "mul_sub_pt_znx" | "mul_add_pt_rnx" | "mul_sub_pt_rnx" | "mul_add_cst_rnx"
+                    | "mul_sub_cst_rnx" => at(vp, g(2)).min(g(3)).min(vp[d]),
+                    "add_pt_znx_assign" | "sub_pt_znx_assign" | "mul_pt_znx_assign" | "add_pt_rnx_assign" | "sub_pt_rnx_assign"
+                    | "mul_pt_rnx_assign" | "add_cst_rnx_assign" | "sub_cst_rnx_assign" | "mul_cst_rnx_assign" => vp[d].min(g(2)),
+                    "neg" | "square" | "conj" | "compact_copy" => at(vp, g(2)),
+                    "rot" => at(vp, g(2)),
+                    "mul_pow2" => at(vp, g(2)) - g(3),
+                    "mul_pow2_assign" => vp[d] - g(2),
+                    "div_pow2" => at(vp, g(2)),
+                    "rescale" => at(vp, g(3)),
+                    _ => vp[d],
+                };
+                vp[d] = v;
+            }
+
             pub fn run_line(cache: &mut HashMap<String, Ctx>, t: &[&str]) -> String {
                 let n = kvu(t, "n", 16);
                 let base2k = kvu(t, "base2k", 52);
@@ -883,6 +917,7 @@ macro_rules! backend_impl {
                     })
                     .collect();
                 let mut vals: Vec<Slots> = vec![None; pool.len()];
+                let mut vprec: Vec<i64> = vec![0; pool.len()];
                 let ops: Vec<&str> = kv(t, "ops").unwrap_or("").split(';').filter(|s| !s.is_empty()).collect();
                 let mut out: Vec<String> = Vec::new();
                 let mut diag: Vec<String> = Vec::new();
@@ -892,6 +927,7 @@ macro_rules! backend_impl {
                     match r {
                         Ok(Ok(dst)) => {
                             out.push(format!("ok@{}", show_pool(&pool)));
+                            prec_after(&f, &mut vprec);
                             let mut dg = "-".to_string();
                             if want_vals {
                                 if let Some(d) = dst {
@@ -904,7 +940,14 @@ macro_rules! backend_impl {
                                                 mx = mx.max(wr[j].abs()).max(wi[j].abs());
                                             }
                                             let l = if e == 0.0 { -1074.0 } else { e.log2() };
-                                            dg = format!("{:.1}:{}:{:.1}", l, pool[d].log_delta(), if mx == 0.0 { -1074.0 } else { mx.log2() });
+                                            let lb = pool[d].log_budget().min(30).min(120 - pool[d].log_delta().min(120));
+                                            dg = format!(
+                                                "{:.1}:{}:{:.1}:{}",
+                                                l,
+                                                vprec[d].min(pool[d].log_delta() as i64),
+                                                if mx == 0.0 { -1074.0 } else { mx.log2() },
+                                                lb
+                                            );
                                         }
                                     }
                                 }
